@@ -290,6 +290,10 @@ class AnnotationDAGBuilder:
             if inspect.iscoroutinefunction(get_callable_run_method(node)):
                 continue
 
+            if NodeTag.non_async in node.tags:
+                # The node is executed inline, no pool is involved
+                continue
+
             if NodeTag.process in node.tags:
                 is_process_pool_needed = True
             else:
